@@ -33,6 +33,13 @@ from fractions import Fraction
 import numpy as np
 
 STATS = {"aged_meshes": 0, "aged_fields": 0, "skipped_inexact": 0, "reverted": 0}
+FAILURES = []     # what an in-place detour did wrong (the object did not come back); read by core.run_property per case
+
+
+def take_failures():
+    out = list(FAILURES)
+    del FAILURES[:]
+    return out
 _state = {"on": False, "busy": False, "installed": False, "orig_mesh": None, "orig_field": None}
 
 
@@ -92,6 +99,13 @@ def _mesh_unchanged(mesh, snap):
     if len(regs) != len(corners) or not _same(mesh.n, n):
         return False
     return all(_same(r.pmin, lo) and _same(r.pmax, hi) for r, (lo, hi) in zip(regs, corners))
+
+
+def _mesh_values_unchanged(mesh, snap):
+    corners, n = snap
+    regs = _regions(mesh)
+    return (len(regs) == len(corners) and np.array_equal(mesh.n, n)
+            and all(r.pmin.dtype == lo.dtype and np.array_equal(r.pmin, lo) and np.array_equal(r.pmax, hi) for r, (lo, hi) in zip(regs, corners)))
 
 
 def _restore_mesh(mesh, snap):
@@ -167,17 +181,19 @@ def _steps(mesh, counter):
     nosubs = not mesh.subregions
 
     def target(bit):
-        return mesh.region if (nosubs and (counter >> bit) & 1) else mesh
+        # resolved at call time: the mesh's Region object may have been replaced meanwhile (the constructor, which
+        # `_reinit` runs again on the object, gives the mesh a region object of its own)
+        return (lambda: mesh.region) if (nosubs and (counter >> bit) & 1) else (lambda: mesh)
 
     v = mesh.region.edges.copy()
     if _can_translate(mesh, v):
         t = target(0)
-        steps.append(("translate", lambda: t.translate(v, inplace=True), lambda: t.translate(-v, inplace=True)))
+        steps.append(("translate", lambda: t().translate(v, inplace=True), lambda: t().translate(-v, inplace=True)))
     if _can_scale(mesh):
         zero = tuple(0.0 for _ in range(ndim))
         u = target(1)
-        steps.append(("scale", lambda: u.scale(2.0, reference_point=zero, inplace=True),
-                      lambda: u.scale(0.5, reference_point=zero, inplace=True)))
+        steps.append(("scale", lambda: u().scale(2.0, reference_point=zero, inplace=True),
+                      lambda: u().scale(0.5, reference_point=zero, inplace=True)))
     if (counter >> 2) & 1:
         steps.reverse()
     return steps
@@ -196,6 +212,33 @@ def _rot_step(mesh, counter):
     k = 1 if (counter // 7) % 2 == 0 else -1
     return ("rotate90", lambda: mesh.rotate90(dims[a], dims[b], k=k, reference_point=ref, inplace=True),
             lambda: mesh.rotate90(dims[a], dims[b], k=-k, reference_point=ref, inplace=True))
+
+
+def _mirror(mesh, snap, counter):
+    """scale by -1 along one axis about the mesh's own centre, in place, twice: a mirror image of the mesh and back.
+    After each step every region still has pmin < pmax; after the second everything is back within rounding."""
+    ndim = mesh.region.ndim
+    if not _can_scale(mesh):
+        return
+    a = (counter // 3) % ndim
+    f = tuple(-1.0 if i == a else 1.0 for i in range(ndim))
+    t = mesh.region if (not mesh.subregions and (counter >> 5) & 1) else mesh
+    scale = max(float(np.max(np.abs(np.asarray(c, dtype=float)))) for pair in snap[0] for c in pair) + 1e-300
+    for step in (1, 2):
+        t.scale(f, inplace=True)
+        regs = _regions(mesh)
+        bad = [r for r in regs if not (np.all(r.pmin < r.pmax))]
+        if bad:
+            FAILURES.append(f"after an in-place scale by {f} about the centre a region has pmin {bad[0].pmin.tolist()} not below pmax "
+                            f"{bad[0].pmax.tolist()} (was {snap[0][0][0].tolist()} .. {snap[0][0][1].tolist()})")
+            break
+        if not (_close(mesh.region.pmin, snap[0][0][0], scale) and _close(mesh.region.pmax, snap[0][0][1], scale)):
+            FAILURES.append(f"an in-place scale by {f} about the region's own centre moved the region: "
+                            f"{snap[0][0][0].tolist()} .. {snap[0][0][1].tolist()} -> {mesh.region.pmin.tolist()} .. {mesh.region.pmax.tolist()}")
+            break
+    _restore_mesh(mesh, snap)
+    if not _same(mesh.n, snap[1]):
+        FAILURES.append(f"an in-place mirror scale changed n: {snap[1].tolist()} -> {mesh.n.tolist()}")
 
 
 def _detour(mesh, warm, steps):
@@ -228,9 +271,16 @@ def age_mesh(mesh):
     snap = _snap_mesh(mesh)
     bc0 = mesh.bc
     made = _detour(mesh, lambda: (_reinit(mesh), warm_mesh(mesh)), _steps(mesh, counter))
+    if not _mesh_unchanged(mesh, snap) and _mesh_values_unchanged(mesh, snap):
+        _restore_mesh(mesh, snap)          # only the sign of a zero differs (-0.0 + v - v = +0.0): put the original back
     if not _mesh_unchanged(mesh, snap):
+        now = [(r.pmin.tolist(), r.pmax.tolist()) for r in _regions(mesh)]
+        FAILURES.append(f"an in-place translate by the edge lengths and back / scale by 2 about the origin and back (all exact in binary64 "
+                        f"for this mesh) does not give the mesh back: corners {[(a.tolist(), b.tolist()) for a, b in snap[0]]} -> {now}, "
+                        f"n {snap[1].tolist()} -> {mesh.n.tolist()}")
         _restore_mesh(mesh, snap)
         raise RuntimeError("aging changed the mesh")
+    _mirror(mesh, snap, counter)
     rot = _rot_step(mesh, counter)
     if rot is not None:
         _detour(mesh, lambda: (_reinit(mesh), warm_mesh(mesh)), [rot])
